@@ -39,8 +39,8 @@ Theorem C15_declared_is_contained : forall cl r g nx c subj styp actor req scope
   let want := C15_spec.decided cl g c subj styp actor scopes aud in
   sc = decided_scopes (policy g) scopes /\
   i = effective_type (policy g) req /\
-  C15_spec.contained want i x rt lv sto = true /\
-  (forall t, sto = Some t -> t = want /\ exists n, (x = XOpaque (AT n) (tr_sub want) \/ x = XJwt (AT n) (tr_sub want) (tr_actor want) (TLife (tr_expired want) true)) /\
+  C15_spec.contained (policy g) want i x rt lv sto = true /\
+  (forall t, sto = Some t -> t = want /\ exists n, (x = XOpaque (AT n) (tr_sub want) \/ x = XJwt (AT n) (tr_sub want) (decided_act (policy g) true (tr_actor want)) (TLife (tr_expired want) true)) /\
                                    find_tok n (toks (fst s')) = Some t) /\
   (forall m, rt = RT m -> find_rt m (rtoks (fst s')) <> None).
 Proof. exact declared_is_contained. Qed.
@@ -99,7 +99,26 @@ Print Assumptions C15_roles_independent.
 Theorem C15_issued_jwt_lifetime : forall cl r g nx c subj styp actor req scopes aud s' i x rt lv sc sto l,
   wf_clients cl = true ->
   exchange cl r (g, nx) c subj styp actor req scopes aud = (s', OExch i x rt lv sc sto) ->
-  (exists a b, x = XIdTok a b l) \/ (exists n a b, x = XJwt n a b l) ->
+  (exists a b d, x = XIdTok a b d l) \/ (exists n a b, x = XJwt n a b l) ->
   l = TLife (C08_spec.expired_of cl (C08_spec.cred_id c)) true.
 Proof. exact issued_jwt_lifetime. Qed.
 Print Assumptions C15_issued_jwt_lifetime.
+
+(* Round 7: every claim-carrying token of a success response (JWT access token, ID token) carries
+   as act claim exactly what the STORAGE POLICY decided for the actor token's subject - the
+   actor's subject, a mapped id, an actor chain, or no act claim at all (decided_act) - for every
+   policy; in particular not the raw actor subject where the policy decided otherwise. *)
+Theorem C15_issued_act_is_policy : forall cl r g nx c subj styp actor req scopes aud s' i x rt lv sc sto,
+  exchange cl r (g, nx) c subj styp actor req scopes aud = (s', OExch i x rt lv sc sto) ->
+  let asub := match actor with Some (ta, aty) => C15_spec.subject_of g aty ta | None => "" end in
+  (forall n a b l, x = XJwt n a b l -> b = decided_act (policy g) true asub) /\
+  (forall a z b l, x = XIdTok a z b l -> b = decided_act (policy g) false asub).
+Proof. exact issued_act_is_policy. Qed.
+Print Assumptions C15_issued_act_is_policy.
+
+Theorem C15_act_policies_differ : forall p, p_act p = ActNone -> decided_act p true "bob" = "" /\
+  (forall q, p_act q = ActMapped -> decided_act q true "bob" = "mapped:bob") /\
+  (forall q, p_act q = ActChain -> decided_act q false "bob" = "bob>gateway") /\
+  (forall q, p_act q = ActDefault -> decided_act q true "bob" = "bob" /\ decided_act q false "bob" = "").
+Proof. exact act_policies_differ. Qed.
+Print Assumptions C15_act_policies_differ.
